@@ -181,7 +181,8 @@ def sequence_part(chk, sc, inputs):
     for k, b in enumerate(pick):
         sc.write("q/f%d" % k, b)
     base = ["--no-config", "--color", "never", "-j1", "-n", "-H", "--no-heading", "--no-mmap", "-e", "m"]
-    variants = [("explicit", []), ("explicit", ["-c"]), ("binary", ["--binary"]), ("text", ["--text"])]
+    variants = [("explicit", []), ("explicit", ["-c"]), ("binary", ["--binary"]), ("text", ["--text"]),
+                ("explicit", ["--passthru"]), ("binary", ["--binary", "--passthru"])]
     singles, jobs, meta = {}, [], []
     for v, fl in variants:
         for k in range(len(pick)):
@@ -190,6 +191,23 @@ def sequence_part(chk, sc, inputs):
         for a, b2 in itertools.permutations(range(len(pick)), 2):
             jobs.append({"args": base + fl + ["f%d" % a, "f%d" % b2], "cwd": sc.path("q")})
             meta.append(("pair", v, tuple(fl), a, b2))
+    # the same for files met by a walk (--sort path: "1" before "2"): a directory holding the two files against two
+    # directories holding one each under the same name
+    for k, b in enumerate(pick):
+        sc.write("w/s%d_1/1" % k, b)
+        sc.write("w/s%d_2/2" % k, b)
+    for a, b2 in itertools.permutations(range(len(pick)), 2):
+        sc.write("w/p%d_%d/1" % (a, b2), pick[a])
+        sc.write("w/p%d_%d/2" % (a, b2), pick[b2])
+    wbase = ["--no-config", "--color", "never", "-j1", "--sort", "path", "-n", "-H", "--no-heading", "--no-mmap", "-e", "m"]
+    for fl in ([], ["--passthru"], ["-c"]):
+        for k in range(len(pick)):
+            for pos in (1, 2):
+                jobs.append({"args": wbase + fl + ["./"], "cwd": sc.path("w/s%d_%d" % (k, pos))})
+                meta.append(("single", "walk%d" % pos, tuple(fl), k, None))
+        for a, b2 in itertools.permutations(range(len(pick)), 2):
+            jobs.append({"args": wbase + fl + ["./"], "cwd": sc.path("w/p%d_%d" % (a, b2))})
+            meta.append(("pair", "walk", tuple(fl), a, b2))
     outs = rgrun.run_many(jobs)
     chk.evaluations += len(jobs)
     for (kind, v, fl, a, b2), (rc, so, se) in zip(meta, outs):
@@ -198,12 +216,12 @@ def sequence_part(chk, sc, inputs):
     for (kind, v, fl, a, b2), (rc, so, se), j in zip(meta, outs, jobs):
         if kind != "pair":
             continue
-        want = singles[(v, fl, a)] + singles[(v, fl, b2)]
+        want = (singles[("walk1", fl, a)] + singles[("walk2", fl, b2)]) if v == "walk" else (singles[(v, fl, a)] + singles[(v, fl, b2)])
         if so == want:
             chk.validated += 1
             chk.nontrivial_case("seq:%s:%s:%d:%d" % (v, "".join(fl), a, b2))
         else:
-            chk.violation({"level": "rg", "naming": "explicit", "mode": v, "strategy": "sequence", "nul_on_stdout": b"\x00" in so, "big": False},
+            chk.violation({"level": "rg", "naming": "implicit" if v == "walk" else "explicit", "mode": v + ("+" + "".join(fl) if fl else ""), "strategy": "sequence", "nul_on_stdout": b"\x00" in so, "big": False},
                           {"why": "the output for two files searched one after the other by one worker is not the two single-file outputs",
                            "args": j["args"], "got": so[:400].decode("latin1"), "single_file_outputs": want[:400].decode("latin1"),
                            "first": list(pick[a][:60]), "second": list(pick[b2][:60])})
